@@ -44,8 +44,14 @@ func crashID(i int64) vaa.VAAID {
 	return vaa.VAAID{EmitterChain: vaa.ChainID([]uint16{2, 255, 2, 255, 10, 2}[i]), EmitterAddress: vaa.Address{0xaa, byte(i / 3)}, TargetChain: vaa.ChainID([]uint16{255, 2, 25, 0, 2, 255}[i]), Sequence: uint64(i % 3)}
 }
 
-func crashVAA(i, variant int64) (*vaa.VAA, []byte) {
-	id := crashID(i)
+// stormVAA: identifiers of their own (never touched by the other steps) for the concurrent-lookup step.
+func stormVAA(n, variant int64) (*vaa.VAA, []byte) {
+	return crashVAAWithID(vaa.VAAID{EmitterChain: 77, EmitterAddress: vaa.Address{0xcc}, TargetChain: 5, Sequence: uint64(n)}, n, variant)
+}
+
+func crashVAA(i, variant int64) (*vaa.VAA, []byte) { return crashVAAWithID(crashID(i), i, variant) }
+
+func crashVAAWithID(id vaa.VAAID, i, variant int64) (*vaa.VAA, []byte) {
 	plen := []int{12, 300, 1, 999, 1700, 64, 0, 1001}[int(variant)%8] // 0: a message with an empty payload is legal
 	payload := make([]byte, plen)
 	for k := range payload {
@@ -68,6 +74,7 @@ func crashVAA(i, variant int64) (*vaa.VAA, []byte) {
 }
 
 type crashWorld struct {
+	stormSeq            int64
 	aborted             bool
 	res                 *simkit.Result
 	log                 *simkit.Log
@@ -295,40 +302,55 @@ func (w *crashWorld) run(p *simkit.Program) {
 			w.verifyLive("after store-on-closed-store (answered " + fmt.Sprint(err) + ") and reopen")
 			w.log.Add("closedstore %d acknowledged=%v", id, err == nil)
 		case "storm":
-			// lookups from other goroutines (public RPC, processor) race with the writer; real
-			// parallelism decides the interleaving, the oracle does not depend on it: whatever was
-			// acknowledged is readable afterwards, in this process and after a reopen
+			// lookups from other goroutines (public RPC, processor) race with the writer: for each of a
+			// series of identifiers that are not stored yet, a goroutine polls while the VAA is written.
+			// Real parallelism decides the interleaving, the oracle does not depend on it: whatever was
+			// acknowledged is readable afterwards, in this process and after a reopen.
 			n := 20 + int(st.A%40)
 			prevProcs := runtime.GOMAXPROCS(4)
-			stop := make(chan struct{})
-			var wg sync.WaitGroup
-			for g := int64(0); g < crashUniverse; g++ {
-				wg.Add(1)
-				go func(g int64) {
-					defer wg.Done()
-					for {
-						select {
-						case <-stop:
-							return
-						default:
-							_, _ = w.d.GetSignedVAABytes(crashID(g))
-						}
-					}
-				}(g)
+			type stormed struct {
+				id  vaa.VAAID
+				exp []byte
 			}
+			var done []stormed
 			for k := 0; k < n; k++ {
-				id := (st.B + int64(k)*7) % crashUniverse
-				v, exp := crashVAA(id, st.C+int64(k))
-				if err := w.d.StoreSignedVAA(v); err != nil {
+				w.stormSeq++
+				v, exp := stormVAA(w.stormSeq, st.C+int64(k))
+				id := *VaaIDFromVAA(v)
+				stop := make(chan struct{})
+				var wg sync.WaitGroup
+				for g := 0; g < 2; g++ {
+					wg.Add(1)
+					go func() {
+						defer wg.Done()
+						for {
+							select {
+							case <-stop:
+								return
+							default:
+								_, _ = w.d.GetSignedVAABytes(id)
+							}
+						}
+					}()
+				}
+				runtime.Gosched()
+				err := w.d.StoreSignedVAA(v)
+				close(stop)
+				wg.Wait()
+				if err != nil {
 					w.violate("store-failed", "StoreSignedVAA during concurrent lookups: %v", err)
 					break
 				}
-				w.acked[id] = exp
+				done = append(done, stormed{id, exp})
 			}
-			close(stop)
-			wg.Wait()
 			runtime.GOMAXPROCS(prevProcs)
 			w.stats.Fault("concurrent-lookups")
+			for _, e := range done {
+				if b, err := w.d.GetSignedVAABytes(e.id); err != nil || !bytes.Equal(b, e.exp) {
+					w.violate("acknowledged-write-not-readable", "a VAA stored while other goroutines looked its identifier up was acknowledged, but the lookup afterwards says: %v", err)
+					break
+				}
+			}
 			w.dropSnapshots()
 			w.verifyLive("after stores racing with lookups")
 			w.log.Add("storm %d stores", n)
